@@ -335,9 +335,10 @@ fn inside_dyadic(r: &mut Rng, g: &[f64]) -> f64 {
     g[i] + (g[i + 1] - g[i]) * (r.range(1, 7) as f64 / 8.0)
 }
 
-const QUERY_KINDS: [&str; 12] = [
+const QUERY_KINDS: [&str; 14] = [
     "inside", "inside-dyadic", "one-axis-on-line", "corner", "upper-one-axis", "upper-all", "lower-all",
     "outside-below", "outside-above", "wrong-length", "ulp-inside-boundary", "ulp-outside-boundary",
+    "ulp-below-line", "ulp-above-line",
 ];
 
 fn gen_point(r: &mut Rng, grid: &[Vec<f64>], kind: &str) -> Vec<f64> {
@@ -363,6 +364,13 @@ fn gen_point(r: &mut Rng, grid: &[Vec<f64>], kind: &str) -> Vec<f64> {
             }
         }
         "ulp-inside-boundary" => p[a] = if r.chance(1, 2) { next_up(grid[a][0]) } else { next_down(last(&grid[a])) },
+        "ulp-below-line" | "ulp-above-line" => {
+            // one ulp to either side of a grid line (an interior one when the axis has one)
+            let g = &grid[a];
+            let k = if g.len() > 2 { 1 + r.below(g.len() as u64 - 2) as usize } else { r.below(2) as usize * (g.len() - 1) };
+            let v = if kind == "ulp-below-line" { next_down(g[k]) } else { next_up(g[k]) };
+            p[a] = v.max(g[0]).min(g[g.len() - 1]);
+        }
         "ulp-outside-boundary" => p[a] = if r.chance(1, 2) { next_down(grid[a][0]) } else { next_up(last(&grid[a])) },
         _ => {}
     }
@@ -372,7 +380,23 @@ fn gen_point(r: &mut Rng, grid: &[Vec<f64>], kind: &str) -> Vec<f64> {
 fn gen_values(r: &mut Rng, grid: &[Vec<f64>]) -> (Vec<f64>, &'static str, Option<(f64, Vec<(f64, f64)>)>) {
     let shape: Vec<usize> = grid.iter().map(|g| g.len()).collect();
     let total: usize = shape.iter().product();
-    match r.below(3) {
+    // row-major index vectors
+    let index_of = |flat: usize| -> Vec<usize> {
+        let mut idx = vec![0usize; shape.len()];
+        let mut f = flat;
+        for k in (0..shape.len()).rev() {
+            idx[k] = f % shape[k];
+            f /= shape[k];
+        }
+        idx
+    };
+    match r.below(5) {
+        3 => ((0..total).map(|_| r.range(0, 2) as f64).collect(), "small-int", None),
+        4 => {
+            // piecewise constant like a tree model: blocks of 2 indices per axis share a level
+            let levels: Vec<f64> = (0..3).map(|_| r.range(-40, 40) as f64 / 4.0).collect();
+            ((0..total).map(|t| levels[index_of(t).iter().map(|i| i / 2).sum::<usize>() % 3]).collect(), "locally-constant", None)
+        }
         0 => ((0..total).map(|_| r.range(-6400, 6400) as f64 / 64.0).collect(), "dyadic", None),
         1 => ((0..total).map(|_| r.unit_f64() * 200.0 - 100.0).collect(), "arbitrary", None),
         _ => {
@@ -415,9 +439,39 @@ fn rand_generic(r: &mut Rng) -> GCase {
         3 => 6,
         _ => 4,
     };
-    let grid: Vec<Vec<f64>> = (0..n).map(|_| { let l = r.range(2, maxlen as i64) as usize; dyadic_grid(r, l) }).collect();
-    let (data, vk, ml) = gen_values(r, &grid);
+    let mut grid: Vec<Vec<f64>> = (0..n).map(|_| { let l = r.range(2, maxlen as i64) as usize; dyadic_grid(r, l) }).collect();
+    let (mut data, mut vk, mut ml) = gen_values(r, &grid);
     let shape: Vec<usize> = grid.iter().map(|g| g.len()).collect();
+    if n >= 2 && r.chance(1, 5) {
+        // cells with equal OPPOSITE corners that are not flat: square cells (same step on every axis) with
+        // f = a + b (x0 - x1) (+ c x2 ...), or the saddle x0 + x1 - 2 x0 x1 on an integer grid
+        let saddle = r.chance(1, 2);
+        let h = if saddle { 1.0 } else { r.range(1, 16) as f64 / 8.0 };
+        for (k, g) in grid.iter_mut().enumerate() {
+            let x0 = if saddle && k < 2 { 0.0 } else { r.range(-16, 16) as f64 / 4.0 };
+            for (i, x) in g.iter_mut().enumerate() {
+                *x = x0 + h * i as f64;
+            }
+        }
+        let (a, b) = (r.range(-20, 20) as f64 / 2.0, r.range(1, 8) as f64 / 2.0);
+        let cs: Vec<f64> = (0..n).map(|_| r.range(-4, 4) as f64 / 2.0).collect();
+        let total: usize = shape.iter().product();
+        data = (0..total)
+            .map(|t| {
+                let mut idx = vec![0usize; n];
+                let mut f = t;
+                for k in (0..n).rev() {
+                    idx[k] = f % shape[k];
+                    f /= shape[k];
+                }
+                let x: Vec<f64> = (0..n).map(|k| grid[k][idx[k]]).collect();
+                let rest: f64 = (2..n).map(|k| cs[k] * x[k]).sum();
+                if saddle { x[0] + x[1] - 2.0 * x[0] * x[1] + rest } else { a + b * (x[0] - x[1]) + rest }
+            })
+            .collect();
+        vk = if saddle { "saddle" } else { "antidiagonal-square" };
+        ml = None;
+    }
     let npts = 6;
     let mut pts = vec![];
     let mut tags = vec![];
@@ -462,6 +516,29 @@ fn det_generic() -> Vec<GCase> {
             }
         }
         out.push(GCase { family: "sweep-2d".into(), grid: vec![g.clone(), h], shape: vec![len, 3], data, pts: p2, tags: t2, ml: None });
+    }
+    // non-flat cells whose opposite corners coincide: f = 5 + 2x - 2y on square cells, the saddle x + y - 2xy,
+    // a small-integer table; queries inside, on the cell border x = 1 and one ulp to either side of it
+    {
+        let g3 = vec![0.0, 1.0, 2.0];
+        let mk = |f: &dyn Fn(f64, f64) -> f64| -> Vec<f64> { g3.iter().flat_map(|x| g3.iter().map(move |y| (*x, *y))).map(|(x, y)| f(x, y)).collect() };
+        let mut pts: Vec<Vec<f64>> = vec![];
+        let mut tags: Vec<String> = vec![];
+        for y in [0.25, 0.5, 1.0, 1.75] {
+            for (x, t) in [(0.25, "inside-dyadic"), (0.75, "inside-dyadic"), (next_down(1.0), "ulp-below-line"), (1.0, "one-axis-on-line"), (next_up(1.0), "ulp-above-line"), (1.5, "inside-dyadic")] {
+                pts.push(vec![x, y]);
+                tags.push(t.to_string());
+            }
+        }
+        let tabs: Vec<(&str, Vec<f64>)> = vec![
+            ("equal-opposite-corners-antidiagonal", mk(&|x, y| 5.0 + 2.0 * x - 2.0 * y)),
+            ("equal-opposite-corners-saddle", mk(&|x, y| x + y - 2.0 * x * y)),
+            ("equal-opposite-corners-small-int", vec![1.0, 0.0, 2.0, 2.0, 1.0, 0.0, 0.0, 2.0, 1.0]),
+            ("locally-constant", vec![3.0, 3.0, 7.0, 3.0, 3.0, 7.0, 1.0, 1.0, 7.0]),
+        ];
+        for (fam, data) in tabs {
+            out.push(GCase { family: fam.into(), grid: vec![g3.clone(), g3.clone()], shape: vec![3, 3], data, pts: pts.clone(), tags: tags.clone(), ml: None });
+        }
     }
     // constructor validation
     let ok2 = vec![0.0, 1.0];
@@ -827,7 +904,22 @@ fn main() {
         let gen = v["case"]["gen"].clone();
         let kind = gen["kind"].as_str().unwrap_or("");
         if name == "interp" {
-            let c = if kind == "det" {
+            // the stored case itself when it is complete (finite numbers survive JSON exactly); else regenerate it
+            let cj = &v["case"];
+            let stored: Option<GCase> = (|| {
+                Some(GCase {
+                    family: cj["family"].as_str()?.to_string(),
+                    grid: serde_json::from_value(cj["grid"].clone()).ok()?,
+                    shape: serde_json::from_value(cj["shape"].clone()).ok()?,
+                    data: serde_json::from_value(cj["values"].clone()).ok()?,
+                    pts: serde_json::from_value(cj["points"].clone()).ok()?,
+                    tags: serde_json::from_value(cj["query_kinds"].clone()).ok()?,
+                    ml: serde_json::from_value(cj["multilinear_c_ab"].clone()).ok()?,
+                })
+            })();
+            let c = if let Some(c) = stored {
+                c
+            } else if kind == "det" {
                 det_generic()[gen["k"].as_u64().unwrap() as usize].clone()
             } else {
                 let mut r = Rng(gen["state"].as_str().unwrap().parse::<u64>().unwrap());
@@ -835,7 +927,10 @@ fn main() {
             };
             emit_generic(&mut st, &c, gen);
         } else {
-            let c: SCase = if kind == "det" {
+            let stored: Option<SCase> = serde_json::from_value(v["case"]["case"].clone()).ok();
+            let c: SCase = if let Some(c) = stored {
+                c
+            } else if kind == "det" {
                 det_sg()[gen["k"].as_u64().unwrap() as usize].clone()
             } else {
                 let mut r = Rng(gen["state"].as_str().unwrap().parse::<u64>().unwrap());
